@@ -17,3 +17,11 @@
   (let ((lo (twigLo n start)) (hi (twigHi n start hasLen length)))
     (ite (<= hi lo) (= (s.len r) 0)
          (and (= (s.arr r) (s.arr s)) (= (s.off r) (+ (s.off s) lo)) (= (s.len r) (- hi lo)))))))
+; C13: dash classes of delimiter token types (numbers are the values of the TOKEN_* constants;
+; the contract of isBlockEndToken re-states them against the package constants as a canary)
+(define-fun cls ((t Int)) Int
+  (ite (= t 13) 1      ; VAR_START_TRIM   ~ VAR_START
+  (ite (= t 14) 2      ; VAR_END_TRIM     ~ VAR_END
+  (ite (= t 15) 3      ; BLOCK_START_TRIM ~ BLOCK_START
+  (ite (= t 16) 4      ; BLOCK_END_TRIM   ~ BLOCK_END
+   t)))))
